@@ -568,9 +568,12 @@ func runC12(c *core.Ctx) {
 
 	c11Clause(c, "C12.sorted", func(c *core.Ctx) {
 		f := c11Fn(c, c11V+".sortedArray")
-		recv := f.Recv()
-		c.Need(recv != nil, "sortedArray has a named receiver")
-		loops := c12RangeOver(f, func(e ast.Expr) bool { return c11IsPath(f, e, recv, c11FVValues) })
+		// the values map of the set the function works on: receiver.values of a method, or what a parameter
+		// holding the set or its values map gives (c11_anchor.go; the callers bind it to the set's own values)
+		env := c12EnvOf(f)
+		c.Need(len(env) > 0, "sortedArray has a receiver or parameter carrying the validator set or its values map")
+		isVals := func(e ast.Expr) bool { return c12Origin(f, e, env, 0) == "values" }
+		loops := c12RangeOver(f, isVals)
 		c.Need(len(loops) == 1, "sortedArray ranges once over the values map")
 		loop := loops[0]
 		if tv, ok := f.Info().Types[loop.X]; ok {
@@ -670,7 +673,7 @@ func runC12(c *core.Ctx) {
 				if len(mk.Args) >= 2 {
 					ln = isCallTo(f, mk.Args[1], "builtin.len")
 				}
-				if ln == nil || len(ln.Args) != 1 || !c11IsPath(f, ln.Args[0], recv, c11FVValues) {
+				if ln == nil || len(ln.Args) != 1 || !isVals(ln.Args[0]) {
 					okElem = false
 				}
 			}
@@ -749,11 +752,34 @@ func runC12(c *core.Ctx) {
 	c11Clause(c, "C12.cache", func(c *core.Ctx) {
 		calc := c11Fn(c, c11V+".calcCaches")
 		V, _, _, _ := c11FindLimit(calc)
-		c.Need(V != nil && calc.Recv() != nil, "calcCaches returns one local cache variable")
+		c.Need(V != nil, "calcCaches returns one local cache variable")
+		// what calcCaches works on comes in through its receiver or parameters (the set, its values map or
+		// their sorted array: c11_anchor.go)
+		env := c12EnvOf(calc)
+		c.Need(len(env) > 0, "calcCaches has a receiver or parameter carrying the validator set, its values or its sorted array")
 		// the loop over the canonical array, written as a range or as a counted loop over a local holding it
 		its := c11Iterations(calc, func(coll ast.Expr) bool {
-			return coll != nil && c12MethodCallOn(calc, coll, c11V+".sortedArray", func(r ast.Expr) bool { return varOf(calc, r) == calc.Recv() }) != nil
+			return coll != nil && c12Origin(calc, coll, env, 0) == "sorted"
 		})
+		// a port that is not the receiver of a method of the set itself is an assumption about the callers:
+		// calcCaches runs only for the constructor, which binds every port to the values of the object it
+		// builds (method form: the object itself)
+		{
+			nvf := c11Fn(c, c11NVAnchor)
+			okCallers := true
+			for _, s := range c11DelegOf(c.P).callers[c.P.Func(c11ActualName(c.P, c11CalcAnchor))] {
+				if !c12RunsOnlyFor(c.P, s.from, c11NVAnchor, c11DelegDepth) {
+					okCallers = false
+				}
+			}
+			okBind, why := c12CacheBound(nvf)
+			if !okCallers {
+				why = "calcCaches is also called outside the constructor"
+			}
+			c.Check(okCallers && okBind, "calcCaches works on the set's own values", "provenance (ports bound at the call sites)", calc.Pos(),
+				"calcCaches is called by the constructor only, with operands derived from the values of the object under construction",
+				"the caches are not computed from the values of the set they are stored in ("+why+"): order, indexes, weights and total describe another map")
+		}
 		// one pass, or several (a loop split into one pass per cache field): sortedArray() is deterministic,
 		// so every pass meets the same elements at the same indices
 		c.Need(len(its) >= 1, "calcCaches iterates over receiver.sortedArray() from the first element, index and element bound by the loop header only")
@@ -937,9 +963,13 @@ func runC12(c *core.Ctx) {
 			// whether the object literal is written before or after the loop does not matter)
 			if okFill {
 				if done, _ := loopDone(nv, loop); done != nil {
-					calcs := nv.CallsTo(c11V + ".calcCaches")
+					calcs := nv.CallsTo(c11ActualName(c.P, c11CalcAnchor))
 					if len(calcs) == 0 {
 						okFill = false
+					}
+					// (the sorted array, when the constructor itself asks for it, is taken from the complete map too)
+					if sa := c11ActualName(c.P, c12SAAnchor); sa != "" {
+						calcs = append(calcs, nv.CallsTo(sa)...)
 					}
 					for _, cs := range calcs {
 						if b, _ := mustPassBlockBefore(nv, done, cs.Pt); !b {
@@ -976,8 +1006,10 @@ func runC12(c *core.Ctx) {
 							src = d
 						}
 					}
-					okR = varOf(enc, call.Args[0]) == enc.Param(0) && enc.Param(0) != nil &&
-						c12MethodCallOn(enc, src, c11V+".sortedArray", func(x ast.Expr) bool { return varOf(enc, x) == enc.Recv() && enc.Recv() != nil }) != nil
+					// sortedArray of the receiver (method form) or of the receiver's values (function form)
+					okR = varOf(enc, call.Args[0]) == enc.Param(0) && enc.Param(0) != nil && enc.Recv() != nil &&
+						len(assignsToVar(enc, enc.Recv())) == 0 &&
+						c12Origin(enc, src, c12Env{enc.Recv(): "obj"}, 0) == "sorted"
 				}
 			}
 			okE = okE && okR
@@ -1080,7 +1112,7 @@ func runC12(c *core.Ctx) {
 	c.Clause("C12.immutable", func() {
 		n := c11Writers(c,
 			[]string{c11FVValues, c11FVCache, c11FIndexes, c11FWeights, c11FIDs, c11FTotal},
-			[]string{c11V, c11Cache}, c11ValidatorOwners)
+			[]string{c11V, c11Cache}, c11ValidatorOwnersOf(c.P))
 		c.ExpectAtLeast("writers of Validators/cache state", n, c11MinValidatorWriters)
 		// fresh constructors
 		fresh := map[*types.Func]bool{}
@@ -1382,7 +1414,7 @@ func c12AliasRule(c *core.Ctx, fresh map[*types.Func]bool) {
 		c.Need(v != nil, "field "+fld)
 		a.vars[v] = short(fld)
 	}
-	for _, o := range c11ValidatorOwners {
+	for _, o := range c11ValidatorOwnersOf(c.P) {
 		a.exempt[o.Func+"|"+o.What] = true
 	}
 	for round := 0; round < 12; round++ {
